@@ -296,13 +296,13 @@ class AM:
     def do_action(self, a, cfg, ev, last, hookval):
         data = cfg["data"]
         if isinstance(a, N.CustomFinishAction):
-            ev.append(("finish", a.result_code))
+            ev.append(("finish", a.result_code, tuple(sorted(data.items()))))
             raise _Term("FINISH_" + a.result_code)
         if isinstance(a, N.FinishAction):
-            ev.append(("finish", None))
+            ev.append(("finish", None, tuple(sorted(data.items()))))
             raise _Term("DONE")
         if isinstance(a, N.CustomYieldAction):
-            ev.append(("yield", a.result_code))
+            ev.append(("yield", a.result_code, tuple(sorted(data.items()))))
             raise _Term("YIELD_" + a.result_code)
         if isinstance(a, N.SetTo):
             o = a.into_storage
